@@ -294,6 +294,105 @@ def astype_cast(inp):
     return _request(inp)
 
 
+# ------------------------------------------------------------------ nested rows of different types with dtype=
+ROW_DTYPES = ["int64", "uint64", "float64", "int32", "float32", "bool", "uint8"]
+BIG = {"int64": [2 ** 53 + 1, -(2 ** 53) - 1, 2 ** 62 + 3, 2 ** 63 - 1, 5], "uint64": [2 ** 53 + 1, 2 ** 63 + 1, 2 ** 64 - 1, 2 ** 64 - 3, 7]}
+
+
+def gen_nested_rows(tier, rng):
+    for b in ROW_DTYPES:
+        for _ in range(count(tier, 6, 60)):
+            k, n = rng.choice([2, 2, 3]), rng.choice([1, 2, 3])
+            dts = [b if rng.random() < 0.5 else rng.choice(ROW_DTYPES)] + [rng.choice(ROW_DTYPES) for _ in range(k - 1)]
+            rows = []
+            for dt in dts:
+                vals = [v for v in (BIG[dt] if dt in BIG and rng.random() < 0.7 else pool(dt, False)) if cast_ok(v, dt, b)]
+                rows.append({"dtype": dt, "values": [rng.choice(vals) for _ in range(n)], "as": rng.choice(["ndarray", "ndarray", "list", "poly"])})
+            yield {"b": b, "rows": rows}
+
+
+@check("C12", "construct.nested_rows_dtype_request", gen_nested_rows,
+       functions=("numpoly.polynomial", "numpoly.construct.compose.compose_polynomial_array", "numpoly.concatenate"),
+       note="bounded: polynomial([row0, row1(, row2)], dtype=b) for b in int64/uint64/float64/int32/float32/bool/uint8, every row data of its "
+            "own dtype (ndarray, Python list, or constant polynomial array) incl. 64-bit integers beyond 2**53 and dtype extremes whose "
+            "cast to b is defined; expected row i = numpy.array(row i).astype(b): no row passes through a type promoted from the others")
+@quiet
+def nested_rows(inp):
+    import numpoly
+    b = numpy.dtype(inp["b"])
+    rows, want = [], []
+    for r in inp["rows"]:
+        a = numpy.array(r["values"], dtype=r["dtype"])
+        want.append(a.astype(b))
+        how = r["as"] if not (r["as"] == "list" and r["dtype"] not in ("int64", "float64", "bool")) else "ndarray"
+        rows.append(a.tolist() if how == "list" else numpoly.polynomial(a) if how == "poly" else a)
+    try:
+        got = numpoly.polynomial(rows, dtype=b)
+    except Exception as e:      # noqa: BLE001
+        return f"polynomial(rows, dtype={b}) raised {type(e).__name__}: {str(e)[:150]}"
+    want = numpy.array(want, dtype=b)
+    return judge(got, [(MPoly.mono(["q0"], [0]), want)], b, want.shape)
+
+
+# ------------------------------------------------------------------ products stored into a target of another dtype
+def gen_mul_target(tier, rng):
+    opd = ["bool", "uint32", "int64", "float64", "int16", "float32", "uint8"]
+    tgt = ["int64", "float64", "complex128", "float32", "int32"]
+    for a in opd:
+        for b in opd:
+            for t in tgt:
+                if not numpy.can_cast(numpy.result_type(a, b), t, "same_kind"):
+                    continue
+                for _ in range(count(tier, 1, 4)):
+                    n = rng.choice([1, 2, 3])
+                    d1, d2 = rng.choice([0, 1, 2]), rng.choice([0, 1, 2])
+                    col = lambda dt: [rng.choice(pool(dt, True)) for _ in range(n)]
+                    yield {"a": a, "b": b, "t": t, "x": [col(a) for _ in range(d1 + 1)], "y": [col(b) for _ in range(d2 + 1)],
+                           "prefill": rng.choice([0, -1, 7]), "via": rng.choice(["numpy", "numpoly"])}
+
+
+@check("C12", "arith.multiply_into_target_dtype", gen_mul_target, functions=("numpoly.multiply", "numpoly.ndpoly.__array_ufunc__"),
+       note="bounded: numpy.multiply / numpoly.multiply(x, y, out=target) for univariate operand arrays of degree <=2 with every power "
+            "present (so every field of the target is written), operand dtypes bool/uint8/uint32/int16/int64/float32/float64 x target dtypes "
+            "int32/int64/float32/float64/complex128 that numpy's same_kind rule allows, target pre-filled with 0 / -1 / 7; expected: the "
+            "coefficient products computed by numpy and stored with numpy.multiply(..., out=) into the target dtype - nothing of the "
+            "pre-filled content, no reinterpreted bytes")
+@quiet
+def multiply_into_target(inp):
+    import itertools as it
+    import numpoly
+    n = len(inp["x"][0])
+    X = [numpy.array(c, dtype=inp["a"]) for c in inp["x"]]
+    Y = [numpy.array(c, dtype=inp["b"]) for c in inp["y"]]
+    t = numpy.dtype(inp["t"])
+    mk = lambda cols: numpoly.polynomial_from_attributes([[k] for k in range(len(cols))], cols, ("q0",), retain_coefficients=True, retain_names=True)
+    x, y = mk(X), mk(Y)
+    deg = len(X) + len(Y) - 2
+    ref = numpy.zeros((deg + 1, n), dtype=t)
+    for i, j in it.product(range(len(X)), range(len(Y))):
+        term = numpy.zeros(n, dtype=t)
+        numpy.multiply(X[i], Y[j], out=term)
+        ref[i + j] += term
+    target = numpoly.ndpoly(exponents=[(k,) for k in range(deg + 1)], shape=(n,), names=("q0",), dtype=t)
+    for key in target.keys:
+        target.values[key] = inp["prefill"]
+    try:
+        r = (numpy if inp["via"] == "numpy" else numpoly).multiply(x, y, out=target)
+    except Exception as e:      # noqa: BLE001
+        return f"multiply(..., out=target of dtype {t}) raised {type(e).__name__}: {str(e)[:150]}"
+    if r is not target:
+        return "the result is not the target object"
+    if target.dtype != t:
+        return f"target dtype became {target.dtype}"
+    got = numpy.zeros((deg + 1, n), dtype=t)
+    for (k,), c in zip(target.exponents.tolist(), target.coefficients):
+        got[k] = c
+    if not numpy.array_equal(got, ref, equal_nan=t.kind in "fc"):
+        return (f"operands {inp['a']} x {inp['b']} into a {t} target pre-filled with {inp['prefill']}: coefficients by power "
+                f"{got.tolist()}, numpy gives {ref.tolist()}")
+    return None
+
+
 SYMBOL_FORMS = {
     "variable": lambda n, b: (n.variable(dtype=b), ["q0"], ()), "variable2": lambda n, b: (n.variable(2, dtype=b), ["q0", "q1"], (2,)),
     "variable_arr": lambda n, b: (n.variable(1, asarray=True, dtype=b), ["q0"], (1,)), "symbols_none": lambda n, b: (n.symbols(dtype=b), ["q0"], ()),
